@@ -856,7 +856,7 @@ def run(ctx):
         if got != want:
             ctx.corr_break("C17/malformed-line", {"line": line}, {"model": got, "expected": want})
     run_keys(ctx, drv, 6 if not thorough else 40)
-    budget = 75 if not thorough else 400
+    budget = 75 if not thorough else 330
     # the expensive / rare kinds come early so that a slow machine still reaches them within the budget
     plan = ["history", "samestep", "urhs", "twostep", "history", "interp", "uniform", "history", "urhs", "interp", "history",
             "uniform", "interp", "history"]
